@@ -185,6 +185,7 @@ def run(prog, R):
     scanners.leading_zero_check(prog, R, "C15.3-leading-zero-continues")
     scanners.keyword_prefix_check(prog, R, "C15.2-keyword-prefix-consumption")
     scanners.pound_arm_check(prog, R, "C15.2-pound-words")
+    scanners.line_bounded_check(prog, R, "C15.4-line-bounded")
     scanners.whitespace_check(prog, R, "C15.5-whitespace-class")
     # word-like lexer directives (`OPENQASM`, `pragma`, `#pragma`) are recognised only when whitespace follows the
     # word: otherwise an identifier that merely starts with it (`pragma2`, `OPENQASMx`) would change its token class
